@@ -40,7 +40,7 @@ CALCS = [("soft", "plain"), ("soft", "keyed"), ("soft", "peratom"), ("emt", "ase
 
 def plan(tier, seed):
     n = 32 if tier == "quick" else 64
-    return [{"name": f"{FAMILIES[j % 8]}-{CALCS[(j // 2) % 8][0]}-{CALCS[(j // 2) % 8][1]}-{'AB'[j % 2]}{j}", "family": FAMILIES[j % 8], "calc": CALCS[(j // 2 + j % 8) % 8], "pass": "AB"[j % 2], "j": j, "seed": seed, "sims": 5 if tier == "quick" else 30, "steps": 25 if tier == "quick" else 70} for j in range(n)]
+    return [{"name": f"{FAMILIES[j % 8]}-{CALCS[(j // 2) % 8][0]}-{CALCS[(j // 2) % 8][1]}-{'AB'[j % 2]}{j}", "family": FAMILIES[j % 8], "calc": CALCS[(j // 2 + j % 8) % 8], "pass": "AB"[j % 2], "j": j, "seed": seed, "sims": 14 if tier == "quick" else 40, "steps": 25 if tier == "quick" else 70} for j in range(n)]
 
 
 class Counting:
